@@ -102,39 +102,6 @@ GridOptOf(rs, sn, cc) ==
 GridOpt == GridOptOf(rows, sense, c)
 
 -----------------------------------------------------------------------------
-(* the oracle is checked, too *)
-TypeOK == /\ phase \in {"vars", "rows"} /\ sense \in {"min", "max"}
-          /\ Len(lb) = NV /\ Len(ub) = NV /\ NV <= MaxVars /\ Len(rows) <= MaxRows
-          /\ phase = "rows" => Len(c) = NV
-
-\* the reported optimum is attained at a feasible grid point and no feasible point is better
-OptWitness ==
-    phase = "rows" =>
-        LET g == GridOpt IN
-        IF g.status = "infeasible" THEN \A p \in Points : \E k \in 1..Len(rows) : ~Sat(rows[k], p)
-        ELSE /\ g.arg \in Points /\ \A k \in 1..Len(rows) : Sat(rows[k], g.arg) /\ Dot(c, g.arg) = g.opt
-             /\ \A p \in Feas(rows) : IF sense = "min" THEN Dot(c, p) >= g.opt ELSE Dot(c, p) <= g.opt
-
-\* max c.x = - min (-c).x
-SenseSymmetry ==
-    phase = "rows" =>
-        LET g == GridOpt
-            h == GridOptOf(rows, IF sense = "min" THEN "max" ELSE "min", [i \in 1..NV |-> 0 - c[i]])
-        IN g.status = h.status /\ g.opt = 0 - h.opt
-
-\* a binary takes values in {0,1} whatever the user bounds
-BinaryDomain == \A p \in Points : \A i \in 1..NV : vt[i] = "B" => p[i] \in {0, 1}
-
-\* adding a row never improves the optimum and never makes an infeasible program feasible
-RowsOnlyTighten ==
-    [][(phase = "rows" /\ phase' = "rows") =>
-          LET g == GridOpt
-              h == GridOptOf(rows', sense', c')
-          IN /\ g.status = "infeasible" => h.status = "infeasible"
-             /\ (g.status = "optimal" /\ h.status = "optimal") =>
-                    IF sense = "min" THEN h.opt >= g.opt ELSE h.opt <= g.opt]_vars
-
------------------------------------------------------------------------------
 (* pseudo-random thinning of the tree of programs (the family is far too large to enumerate:
    ~7*10^4 declarations x 250 objectives x 3375^3 rows); used as CONSTRAINT, so TLC still
    generates every successor and explores a seeded sample of them *)
@@ -148,9 +115,48 @@ Flat == [i \in 1..NV |-> IF vt[i] = "I" THEN 1 ELSE 2] \o lb \o ub
 RECURSIVE HashTo(_, _)
 HashTo(f, n) == IF n = 0 THEN 0 ELSE (f[n] * HashW[n] * (n + 1) + HashTo(f, n - 1)) % 1000003
 Hash == HashTo(Flat, Len(Flat))
-Keep == LET m == IF phase = "vars" THEN (IF NV <= 1 THEN 1 ELSE IF NV = 2 THEN KeepMod[1] ELSE KeepMod[2])
+Sampled == LET m == IF phase = "vars" THEN (IF NV <= 1 THEN 1 ELSE IF NV = 2 THEN KeepMod[1] ELSE KeepMod[2])
                  ELSE IF rows = <<>> THEN KeepMod[3] ELSE KeepMod[4]
-        IN Hash % m = 0
+        IN /\ Hash % m = 0
+           \* programs without any feasible point are the majority: keep one in eight of them
+           /\ (phase = "rows" /\ GridOpt.status = "infeasible") => Hash % (8 * m) = 0
+
+Keep == Sampled       \* named in the cfg as CONSTRAINT (TLC does not let invariants refer to that name)
+
+-----------------------------------------------------------------------------
+(* the oracle is checked, too (TLC evaluates invariants also on the states CONSTRAINT Keep discards:
+   hence the guards) *)
+TypeOK == /\ phase \in {"vars", "rows"} /\ sense \in {"min", "max"}
+          /\ Len(lb) = NV /\ Len(ub) = NV /\ NV <= MaxVars /\ Len(rows) <= MaxRows
+          /\ phase = "rows" => Len(c) = NV
+
+\* the reported optimum is attained at a feasible grid point and no feasible point is better
+OptWitness ==
+    (phase = "rows" /\ Sampled) =>
+        LET g == GridOpt IN
+        IF g.status = "infeasible" THEN \A p \in Points : \E k \in 1..Len(rows) : ~Sat(rows[k], p)
+        ELSE /\ g.arg \in Points /\ \A k \in 1..Len(rows) : Sat(rows[k], g.arg) /\ Dot(c, g.arg) = g.opt
+             /\ \A p \in Feas(rows) : IF sense = "min" THEN Dot(c, p) >= g.opt ELSE Dot(c, p) <= g.opt
+
+\* max c.x = - min (-c).x
+SenseSymmetry ==
+    (phase = "rows" /\ Sampled) =>
+        LET g == GridOpt
+            h == GridOptOf(rows, IF sense = "min" THEN "max" ELSE "min", [i \in 1..NV |-> 0 - c[i]])
+        IN g.status = h.status /\ g.opt = 0 - h.opt
+
+\* a binary takes values in {0,1} whatever the user bounds
+BinaryDomain == Sampled => \A p \in Points : \A i \in 1..NV : vt[i] = "B" => p[i] \in {0, 1}
+
+\* adding a row never improves the optimum and never makes an infeasible program feasible
+\* (the step from the program without its last row, written as a state predicate)
+RowsOnlyTighten ==
+    (phase = "rows" /\ Sampled /\ rows # <<>>) =>
+        LET g == GridOptOf(SubSeq(rows, 1, Len(rows) - 1), sense, c)
+            h == GridOpt
+        IN /\ g.status = "infeasible" => h.status = "infeasible"
+           /\ (g.status = "optimal" /\ h.status = "optimal") =>
+                  IF sense = "min" THEN h.opt >= g.opt ELSE h.opt <= g.opt
 
 -----------------------------------------------------------------------------
 (* export *)
@@ -160,5 +166,5 @@ CheckSum == DotTo(c, [i \in 1..NV |-> i], NV) + DotTo(lb, [i \in 1..NV |-> 3 * i
             + RowSum(rows) + Len(rows)
 ExportRec == [vt |-> vt, lb |-> lb, ub |-> ub, sense |-> sense, c |-> c, rows |-> rows, grid |-> GridOpt,
               binbound |-> \E i \in 1..NV : vt[i] = "B" /\ (lb[i] # None \/ ub[i] # None)]
-Export == (phase = "rows" /\ CheckSum % ExportMod = 0) => PrintT(ToJson(ExportRec))
+Export == (phase = "rows" /\ Sampled /\ CheckSum % ExportMod = 0) => PrintT(ToJson(ExportRec))
 =============================================================================
